@@ -5,6 +5,8 @@ CONSTANTS MaxSize = 1
  MaxAtoms = 4
  AtomKinds = {"A", "L"}
  LongKinds = {"A", "L", "E"}
+ ShortKinds = {}
+ ShortLen = 0
  DeclAtoms = 2
  Variants <- VariantsQuick
  ExactOccursCheck = TRUE
